@@ -235,7 +235,12 @@ def search(ctx):
                 if lo < 0 or hi > N or hi <= lo:
                     continue
                 ctx.tried("crop", (N, s, cx2))
-                sub = subimage(im, (cx, cx), s)
+                try:
+                    sub = subimage(im, (cx, cx), s)
+                except Exception as ex:
+                    ctx.violation("C18:crop-refused", "crop (N=%d, centre %r, size %d: window %d:%d of %d) fits inside the image but raised %r" % (N, cx, s, lo, hi, N, ex),
+                                  dict(kind="crop", n=N, center=cx, size=s))
+                    continue
                 # statement-level oracle: every retained pixel has the source's value at the same
                 # physical coordinates, the retained window is contiguous, metadata kept
                 ok = _attrs_kept(im, sub) and sub.sizes['x'] >= 1 and sub.sizes['y'] >= 1
